@@ -217,7 +217,7 @@ func selfcertReplay(args []string) {
 		case 1:
 			sd["anchorOrigin"] = "  https://origin-1.example/path/  "
 		case 2:
-			sd["anchorOrigin"] = map[string]interface{}{"o": 2}
+			sd["anchorOrigin"] = anchorOrigin(102)
 		}
 
 		if c.Ty == 1 {
